@@ -8,22 +8,10 @@ from . import common
 
 
 def setup():
-    '''Full .vo build of everything the claimed properties rest on (Props/<id>.vo
-    for every check registered in MANIFEST.json, plus the NonVacuity files),
-    then the hygiene scan over the whole development.'''
-    import json
-    import os
-    manifest = json.load(open(os.path.join(common.VERIF, 'MANIFEST.json')))
-    targets = []
-    for chk in manifest.get('checks', []):
-        pid = chk['property_id']
-        if os.path.exists(os.path.join(common.COQ, 'Props', pid + '.v')):
-            targets.append(f'Props/{pid}.vo')
-    for root, _, names in os.walk(common.COQ):
-        for name in names:
-            if name == 'NonVacuity.v':
-                targets.append(os.path.relpath(os.path.join(root, name), common.COQ)[:-2] + '.vo')
-    ok, out = common.coq_make(sorted(set(targets)))
+    '''Full .vo build of the whole development, then the hygiene scan.'''
+    targets = []      # everything: every .v file of the development (cases files import models that
+                      # the property files do not depend on, e.g. Sched/Replay.v)
+    ok, out = common.coq_make()
     if not ok:
         print(out[-6000:])
         print('setup: Coq build FAILED')
@@ -33,7 +21,7 @@ def setup():
         print('\n'.join(bad))
         print('setup: hygiene scan FAILED')
         return 1
-    print(f'setup: {len(targets)} Coq targets built (full .vo), hygiene scan clean')
+    print('setup: Coq development built (full .vo build of every file), hygiene scan clean')
     return 0
 
 
